@@ -24,6 +24,7 @@ func init() {
 		refjs.Known.MulNegZero = false
 		refjs.Known.MappedArgsEval = false
 		refjs.Known.EvalVarFuncName = false
+		refjs.Known.ComputedKeyOverAccessor = false
 	}
 }
 
